@@ -546,20 +546,32 @@ voc_close	(SF_PRIVATE *psf)
 
 
 		/*
-		** The terminator goes right behind the sound data. For a file opened
-		** SFM_RDWR that is where the old terminator sits unless frames were
-		** appended (the end of the file would be one byte too far then).
+		** The terminator goes behind everything the file holds. A file opened
+		** SFM_RDWR that was not extended still ends with its old terminator,
+		** right behind the sound data : that one is kept, a second one behind it
+		** would turn the first into sound data.
 		*/
-		if (psf->blockwidth > 0 && psf->dataoffset > 0)
-			psf_fseek (psf, psf->dataoffset + psf->sf.frames * psf->blockwidth, SEEK_SET) ;
+		sf_count_t data_end = 0 ;
+		unsigned char last = 0xFF ;
+
+		if (psf->file.mode == SFM_RDWR && psf->blockwidth > 0 && psf->dataoffset > 0)
+		{	data_end = psf->dataoffset + psf->sf.frames * psf->blockwidth ;
+			if (psf_get_filelen (psf) != data_end + 1 || psf_fseek (psf, data_end, SEEK_SET) != data_end
+					|| psf_fread (&last, 1, 1, psf) != 1 || last != VOC_TERMINATOR)
+				data_end = 0 ;
+			} ;
+
+		if (data_end > 0)
+			psf->dataend = data_end ;
 		else
-			psf_fseek (psf, 0, SEEK_END) ;
+		{	psf_fseek (psf, 0, SEEK_END) ;
 
-		/* The terminator written next is not sound data. */
-		psf->dataend = psf_ftell (psf) ;
+			/* The terminator written next is not sound data. */
+			psf->dataend = psf_ftell (psf) ;
 
-		/* Write terminator */
-		psf_fwrite (&byte, 1, 1, psf) ;
+			/* Write terminator */
+			psf_fwrite (&byte, 1, 1, psf) ;
+			} ;
 
 		voc_write_header (psf, SF_TRUE) ;
 		} ;
